@@ -76,6 +76,7 @@ class Context:
         self.apps = {}
         self.iroots = {}
         self.fork_roots = False
+        self.nested_leaves = 0
         self.fork_small_mod = 2
         self.inner_exc = None
         self.fork_pow_base = False
@@ -312,6 +313,49 @@ class Context:
         self.assume_term(t == d)
         return d
 
+    # ---- nested enumeration (all paths of a sub-computation under the current path condition)
+    def enumerate(self, fn, max_leaves=2000):
+        """Explore every path of fn() under the current PC (forks inside fn are NOT recorded in the outer trace).
+        Returns a list of leaves (constraints, value, exception): constraints are the z3 terms added to the PC (decisions,
+        assumptions and axioms) on that leaf.  fn must not leave side effects behind (callers deep-copy their objects)."""
+        leaves = []
+        stack = [[]]
+        saved = (self.prefix, self.trace, self.pending, self.twosided)
+        saved_apps = ({k: list(v) for k, v in self.apps.items()}, set(self._app_keys), dict(self.iroots), self._inst_done)
+        pc_mark, ax_mark = len(self.pc), len(self.axioms)
+        try:
+            while stack:
+                if len(leaves) >= max_leaves:
+                    raise Unsupported(f"more than {max_leaves} leaves in a nested enumeration")
+                sub = stack.pop()
+                self.solver.push()
+                self.prefix, self.trace, self.pending = sub, [], []
+                self.model = None
+                val = exc = None
+                try:
+                    val = fn()
+                except PathAbort:
+                    exc = "abort"
+                except Unsupported:
+                    raise
+                except Exception as e:
+                    exc = e
+                finally:
+                    cons = self.pc[pc_mark:] + self.axioms[ax_mark:]
+                    del self.pc[pc_mark:]
+                    del self.axioms[ax_mark:]
+                    self.solver.pop()
+                    self.apps, self._app_keys, self.iroots, self._inst_done = (
+                        {k: list(v) for k, v in saved_apps[0].items()}, set(saved_apps[1]), dict(saved_apps[2]), saved_apps[3])
+                stack.extend(self.pending)
+                if exc != "abort":
+                    leaves.append((cons, val, exc))
+        finally:
+            self.prefix, self.trace, self.pending, self.twosided = saved
+            self.model = None
+        self.nested_leaves += len(leaves)
+        return leaves
+
     # ---- obligations
     def prove(self, oid, goal, info=None, replay=None, regions=None, timeout_ms=None):
         """Obligation PC ∧ axioms ⊢ goal.  `regions`: name -> predicate; a counterexample is attributed to a
@@ -527,6 +571,7 @@ def explore_batch(fn, params, prefixes, batch, timeout_ms, seed, known, deadline
         out["statuses"][status] = out["statuses"].get(status, 0) + 1
         if ctx.twosided > 0 or any(isinstance(d, bool) for d in ctx.trace):
             out["nontrivial_paths"] += 1
+        out["nested_leaves"] = out.get("nested_leaves", 0) + ctx.nested_leaves
         out["queries"] += ctx.queries
         out["solver_s"] += ctx.solver_s
         for r in ctx.results:
